@@ -698,6 +698,67 @@ func U%[1]d() {
 `, u, lit.String()))
 		return p
 	}},
+	{"nested_closures_same_method_names", true, func(g *G, u int) string {
+		// two receiver types of one package with a same-named method; each method nests range-over-func loops,
+		// func literals and deferred closures, so the synthesised function names differ only in the receiver
+		p := g.pkgOrMain()
+		a, b := g.n(2, 4, "a"), g.n(2, 5, "b")
+		shape := g.n(0, 2, "shape")
+		inner := []string{
+			"for c := range seq%[1]d(r) {\n\t\t\tsum %[2]s r*10 + c\n\t\t}",
+			"func() {\n\t\t\tfor c := range seq%[1]d(r) {\n\t\t\t\tsum %[2]s r*10 + c\n\t\t\t}\n\t\t}()",
+			"f := func(k int) func() { return func() { sum %[2]s r*10 + k } }\n\t\tfor c := range seq%[1]d(r) {\n\t\t\tf(c)()\n\t\t}",
+		}[shape]
+		body := func(op string) string { return fmt.Sprintf(inner, u, op) }
+		g.add(p, fmt.Sprintf(`func seq%[1]d(n int) func(yield func(int) bool) {
+	return func(yield func(int) bool) {
+		for i := 1; i <= n; i++ {
+			if !yield(i) {
+				return
+			}
+		}
+	}
+}
+
+type ga%[1]d struct{ n int }
+type gb%[1]d struct{ n int }
+
+func (x *ga%[1]d) Total() int {
+	sum := 0
+	for r := range seq%[1]d(x.n) {
+		%[2]s
+	}
+	return sum
+}
+
+func (x *gb%[1]d) Total() int {
+	sum := 0
+	for r := range seq%[1]d(x.n) {
+		%[3]s
+	}
+	return sum
+}
+
+func (x ga%[1]d) Each() (s int) {
+	for r := range seq%[1]d(x.n) {
+		defer func() { s += r }()
+	}
+	return 1
+}
+
+func (x gb%[1]d) Each() (s int) {
+	for r := range seq%[1]d(x.n) {
+		defer func() { s -= r * 2 }()
+	}
+	return 1
+}
+
+func U%[1]d() {
+	println("#%[1]d", (&ga%[1]d{%[4]d}).Total(), (&gb%[1]d{%[5]d}).Total(), ga%[1]d{%[4]d}.Each(), gb%[1]d{%[5]d}.Each())
+}
+`, u, body("+="), body("-="), a, b))
+		return p
+	}},
 	{"structs_arrays_copy", false, func(g *G, u int) string {
 		p := g.pkgOrMain()
 		a := g.n(1, 9, "a")
